@@ -116,6 +116,19 @@ func (c *Ctx) bitStringWriters() {
 				c.ok(R, key, st.Pos(), "the two capacity-checked bit writers")
 			case "(*boc.BitString).WriteBytes", "(*boc.BitString).WriteByte":
 				c.ok(R, key, st.Pos(), "aligned fast path behind its own capacity check (checked by E8.capacity)")
+			case "(*boc.BitString).ReadBits":
+				// buf[last] &= mask on the freshly allocated result of the aligned fast path (clears the
+				// bits after len; role checked by E10.tail-zero under C02)
+				okv := false
+				if bo, ok := st.Val.(*ssa.BinOp); ok && bo.Op == token.AND {
+					if l2, ok := bo.X.(*ssa.UnOp); ok && sameIndexAddr(l2.X, ia) {
+						if al, ok := ld.X.(*ssa.FieldAddr); ok {
+							_, isLocal := al.X.(*ssa.Alloc)
+							okv = isLocal
+						}
+					}
+				}
+				c.check(okv, R, key, st.Pos(), "clears bits of the last byte of the freshly allocated result (x &= mask)", "ReadBits writes into a BitString buffer other than by clearing tail bits of its own fresh result")
 			default:
 				c.bad(R, key, st.Pos(), "a function other than On/Off writes bits of a BitString buffer directly: the capacity check is bypassed")
 			}
